@@ -210,7 +210,9 @@ class LoweringContextProtocol(SymbolicDimTracker, Protocol):
 
     def try_evaluate_const(self, var: Any) -> np.ndarray[Any, np.dtype[Any]] | None: ...
 
-    def ensure_external_flag(self, name: str, var: Any) -> ir.Value: ...
+    def ensure_external_flag(
+        self, name: str, var: Any, *, dtype: Any = ..., shape: Any = ...
+    ) -> ir.Value: ...
 
     def add_input_for_invar(self, var: Any, index: int) -> ir.Value: ...
 
